@@ -992,8 +992,8 @@ Proof.
   right. intros g Hg. destruct (Nat.eq_dec g n) as [->|Hgn]; [exact Hne|apply Hno; lia].
 Qed.
 
-(* ... spelled out for one client *)
-Theorem stream_provenance w toks G : greach (w, toks, G) ->
+(* what the invariant says, spelled out *)
+Definition stream_statement (w : world) (toks : list tok) (G : ghost) : Prop :=
   exists (beta : nat -> nat) (log : nat -> list item),
     (* one client per connection instance, for ever *)
     (forall g g', (g < w_nextg w)%nat -> (g' < w_nextg w)%nat -> beta g = beta g' -> g = g') /\
@@ -1008,14 +1008,22 @@ Theorem stream_provenance w toks G : greach (w, toks, G) ->
     forall c, g_rcv G c = [] \/
               (g_rcv G c = SERVER_FULL_ERROR_MESSAGE /\ forall g, (g < w_nextg w)%nat -> beta g <> c) \/
               exists g tail, (g < w_nextg w)%nat /\ beta g = c /\ g_rcv G c ++ tail = ser (log g).
+
+Lemma SI_statement w toks G beta log :
+  SI w toks (g_rcv G) (g_sup G) (g_yld G) (g_seen G) beta log -> stream_statement w toks G.
 Proof.
-  intros R. destruct (stream_invariant _ R) as (beta & log & S). cbn [SIg] in S.
+  intros S.
   pose proof S as [HI Hb Hrb Hint Hpref Hbinj Hseen Hunseen Hnd Hbl Hoth Hnew Hgens Happs Hcnt].
   exists beta, log. split; [exact Hbinj|]. split; [exact Hb|]. split; [apply (inv_tok _ _ _ HI)|].
   split; [intros g; split; auto|]. split; [exact Hcnt|].
   intros c. destruct (bounded_dec beta c (w_nextg w)) as [(g & Hg & E)|Hno].
   - right. right. destruct (Hpref g Hg) as [tail Ht]. exists g, tail. rewrite <- E. auto.
   - destruct (Hoth c Hno) as [H0|H1]; [left; exact H0|right; left; auto].
+Qed.
+
+Theorem stream_provenance w toks G : greach (w, toks, G) -> stream_statement w toks G.
+Proof.
+  intros R. destruct (stream_invariant _ R) as (beta & log & S). cbn [SIg] in S. eapply SI_statement; eauto.
 Qed.
 
 (* ---------- the executable poll (level-triggered readiness of the model kernel) is truthful ---------- *)
